@@ -59,6 +59,7 @@ func runC09(c *an.Ctx) string {
 	r095Cleanup(c)
 	r096Sorted(c)
 	r097ErrGates(c)
+	r098TempFiles(c)
 	return explanationC09
 }
 
@@ -573,4 +574,114 @@ func balancedArg(s string) string {
 		}
 	}
 	return ""
+}
+
+// r098TempFiles (R09.8): a temporary file created inside the output tree
+// (os.CreateTemp in the generator) is removed on every exit that follows its
+// creation: the removal is deferred (or called) before any other return can be
+// reached. The only return allowed in between is the creation's own error
+// return. A temp file left behind by a failed run becomes part of the output
+// tree of the next, successful one.
+func r098TempFiles(c *an.Ctx) {
+	const rule = "R09.8"
+	n := 0
+	for _, dir := range []string{"codegen/generator", "codegen", "cmd/goa"} {
+		for _, f := range c.AllFuncs(dir) {
+			if strings.HasSuffix(c.Position(f.Decl.Pos()), "testing.go") || strings.Contains(c.Position(f.Decl.Pos()), "/testing.go:") {
+				continue
+			}
+			info := f.Pkg.TypesInfo
+			var g *an.CFG
+			ast.Inspect(f.Decl.Body, func(nd ast.Node) bool {
+				as, ok := nd.(*ast.AssignStmt)
+				if !ok || len(as.Rhs) != 1 || len(as.Lhs) < 1 {
+					return true
+				}
+				call, ok := as.Rhs[0].(*ast.CallExpr)
+				if !ok || an.CalleeName(info, call) != "os.CreateTemp" {
+					return true
+				}
+				tmp := an.ObjOf(info, as.Lhs[0])
+				if tmp == nil {
+					return true
+				}
+				n++
+				if g == nil {
+					g = an.NewCFG(info, f.Decl.Body)
+				}
+				construct := fmt.Sprintf("%s#temp(%s)", f.Name, tmp.Name())
+				removes := func(n ast.Node) bool {
+					found := false
+					ast.Inspect(n, func(m ast.Node) bool {
+						c2, ok := m.(*ast.CallExpr)
+						if !ok || (an.CalleeName(info, c2) != "os.Remove" && an.CalleeName(info, c2) != "os.RemoveAll") || len(c2.Args) != 1 {
+							return true
+						}
+						if root := an.RootIdent(c2.Args[0]); root != nil && an.ObjOf(info, root) == tmp {
+							found = true
+						}
+						if inner, ok := c2.Args[0].(*ast.CallExpr); ok {
+							if se, ok := inner.Fun.(*ast.SelectorExpr); ok && an.ObjOf(info, se.X) == tmp {
+								found = true
+							}
+						}
+						return true
+					})
+					return found
+				}
+				create, ok := g.LocOf(call)
+				if !ok {
+					c.Undecidedf(rule, construct, call.Pos(), "creation not found in the control-flow graph")
+					return true
+				}
+				// locations that discharge the obligation: defer statements and direct calls removing the file
+				discharge := g.Find(func(x ast.Node) bool {
+					switch y := x.(type) {
+					case *ast.DeferStmt:
+						return removes(y)
+					case *ast.ExprStmt:
+						return removes(y)
+					case *ast.AssignStmt:
+						return removes(y)
+					case *ast.IfStmt:
+						return false
+					}
+					return false
+				})
+				isDischarge := func(l an.Loc) bool {
+					for _, d := range discharge {
+						if d == l {
+							return true
+						}
+					}
+					return false
+				}
+				// the creation's own error return: inside the if that follows the creation statement
+				var ownIf *ast.IfStmt
+				if blk, ok := g.Parent[as].(*ast.BlockStmt); ok {
+					for i, st := range blk.List {
+						if st == ast.Stmt(as) && i+1 < len(blk.List) {
+							ownIf, _ = blk.List[i+1].(*ast.IfStmt)
+						}
+					}
+				}
+				var leaks []string
+				for _, r := range g.ReturnLocs() {
+					pos := g.PosLoc(r)
+					if ownIf != nil && pos >= ownIf.Pos() && pos <= ownIf.End() {
+						continue
+					}
+					if g.Reaches(create, r, isDischarge) {
+						leaks = append(leaks, c.Position(pos))
+					}
+				}
+				if len(discharge) == 0 {
+					leaks = append(leaks, "no removal of the file at all")
+				}
+				c.Check(len(leaks) == 0, rule, construct, call.Pos(), "the temporary file is removed on every exit after its creation", "the temporary file created in the output tree survives the exits at "+strings.Join(leaks, ", ")+": a failed run leaves it in gen/, where the cleanup before the next run (sub-directories only) does not reach it")
+				return true
+			})
+		}
+	}
+	c.Floor(rule, n, 1, "temporary files created by the generators")
 }
